@@ -166,10 +166,19 @@ Proof. vm_compute. reflexivity. Qed.
 
 (* corr / spec accept the example when presented as an observation *)
 Example C09_example_as_case :
-  let c := mkCase ex_l1 (Some (8, 800)) [(7, 700); (8, 800)] ex_claims None [true; true; true]
-                  (OCert (r_hash (cc_root ex_cc)) 3 (cc_imported ex_cc)) ONoCert in
+  let c := mkCase ex_l1 (Some (8, 800)) false [(7, 700); (8, 800)] ex_claims None [true; true; true]
+                  (OCert (r_hash (cc_root ex_cc)) 3 (cc_imported ex_cc)) ONoCert None in
   corr c = true /\ spec c = true.
 Proof. vm_compute. split; reflexivity. Qed.
+
+(* the guard clause of spec on the example: for the root of 3 leaves the two finalized claims must be accepted; with the claim
+   against leaf 3 added the guard must refuse, and an implementation whose guard accepts them is rejected *)
+Example C09_guard_clause :
+  let r := r_hash (cc_root ex_cc) in
+  let mk cs g := mkCase ex_l1 (Some (8, 800)) false [(7, 700); (8, 800)] cs (Some r) [true; true; true] ONoCert ONoCert (Some g) in
+  spec (mk ex_claims true) = true /\ spec (mk ex_claims false) = false /\
+  spec (mk (ex_claims ++ [ex_unfinalized])%list false) = true /\ spec (mk (ex_unfinalized :: ex_claims) true) = false.
+Proof. vm_compute. repeat split; reflexivity. Qed.
 
 Print Assumptions imported_exit_verifies.
 Print Assumptions chosen_root_at_or_below_finalized.
